@@ -176,6 +176,31 @@ where
     }
 }
 
+#[cfg(p2panda_p2panda_verif)]
+impl<L, E, TP> Pipeline<L, E, TP> {
+    /// Verification hook: a pipeline handle *without* the processing thread. The receiving end
+    /// of the channel is handed to the caller, which then plays the pipeline thread (receive an
+    /// event, `tasks.mark_as_done(..)`) whenever its schedule says so, while the real
+    /// [`Pipeline::process`] runs on the submitting side. `capacity` is the channel capacity
+    /// (`PUBLISH_BUFFER_SIZE` in `Pipeline::new`).
+    ///
+    /// The returned sender is a clone of the pipeline's own (for capacity probes and permits).
+    #[doc(hidden)]
+    #[allow(clippy::type_complexity)]
+    pub fn verif_detached(
+        capacity: usize,
+        tasks: TaskTracker<Event<L, E, TP>, Hash>,
+    ) -> (
+        Self,
+        mpsc::Sender<Event<L, E, TP>>,
+        mpsc::Receiver<Event<L, E, TP>>,
+    ) {
+        let (pipeline_tx, pipeline_rx) = mpsc::channel(capacity);
+        let tx = pipeline_tx.clone();
+        (Self { pipeline_tx, tasks }, tx, pipeline_rx)
+    }
+}
+
 #[cfg(test)]
 mod tests {
     use p2panda_core::test_utils::TestLog;
